@@ -476,8 +476,9 @@ def emit_program(prog, bodies=False, crate_attrs=""):
     out.append(crate_attrs)
     out.append(prog.prelude)
     for mod in prog.modules:
+        out.append("#[diplomat::bridge]\n")
         out.append(attrs_s(mod.attrs, ""))
-        out.append("#[diplomat::bridge]\npub mod %s {\n" % mod.name)
+        out.append("pub mod %s {\n" % mod.name)
         out.append("    use diplomat_runtime::{DiplomatStr, DiplomatStr16, DiplomatChar, DiplomatByte, DiplomatWrite, DiplomatOption, DiplomatResult, DiplomatSlice, DiplomatSliceMut, DiplomatStrSlice, DiplomatStr16Slice, DiplomatUtf8StrSlice};\n")
         for other in getattr(mod, "uses", []):
             out.append("    use %s;\n" % other)
